@@ -236,6 +236,8 @@ def render_line(form, pos, v, cmd):
             return None  # a macro is one line; the empty macro is not specified
         if v.endswith("\\") or not _balanced(v) or "'''" in v or '"""' in v:
             return None  # backslash-newline / an open triple quote continue the line; closers end a macro by grammar
+        if "#" in v:
+            return None  # `#` starts a comment by the ordinary lexical rules; not required to be macro text
         if pos == "capt":
             inner = {"macro": f"{cmd}! {v}", "macroarg": f"{cmd} L ! {v}", "macrotail": f"{cmd} L ! {v} > out.txt"}[form]
             return f"y = $({inner})\n"
@@ -713,12 +715,17 @@ def run(ctx):
     ctx.log(f"{cases} cases, {evals} executions, {len(fails)} failing cases -> {len({k for k, _ in keyed})} keys")
     # evidence samples: a deterministic handful of real cases, re-run here
     _init_worker()
-    pool = [v for v in values if len(v) == maxlen]
-    for v in common.pick_samples(pool, ctx.seed, 5):
-        for form in ("dq", "gluepre"):
+    pool = [v for v in values if len(v) == maxlen and not v.isalnum()]
+    show = ("dq", "raw", "ffield", "atlist", "gluesuf", "macroarg", "tsq", "plain", "f", "atgen")
+    k = 0
+    for v in common.pick_samples(pool, ctx.seed, 10):
+        for j in range(len(show)):
+            form = show[(k + j) % len(show)]
             r = run_case(form, "mid", True, v, ("u",))
             if r:
-                ctx.sample({"form": form, "source": r["src"].replace("CMD", "recu"), "observed": _scrub(r["obs"]["u"]), "expected": exp_json(r["exp"])})
+                ctx.sample({"form": form, "value": v, "source": r["src"].replace("CMD", "recu"), "observed": _scrub(r["obs"]["u"]), "expected_allowed_per_argument": exp_json(r["exp"])})
+                k += j + 1
+                break
     by_path = {p: sum(r["by_path"][p] for r in res) for p in PATHS}
     by_kind = {k: sum(r["by_kind"][k] for r in res) for k in ("mid", "E0", "pos")}
     if ctx.thorough:
